@@ -38,6 +38,22 @@ type fakeRelay struct {
 	recvErr map[string]int // pending injected receive errors per stream
 	newBox  int
 	streams int
+	failClose bool // closing a stream reports an error (the stream is closed all the same)
+}
+
+func (r *fakeRelay) setFailClose(v bool) {
+	r.mu.Lock()
+	r.failClose = v
+	r.mu.Unlock()
+}
+
+func (r *fakeRelay) closeErr() error {
+	r.mu.Lock()
+	defer r.mu.Unlock()
+	if r.failClose {
+		return errors.New("injected close failure")
+	}
+	return nil
 }
 
 func newFakeRelay() *fakeRelay {
@@ -79,10 +95,10 @@ type relaySend struct {
 	closed bool
 }
 
-func (s *relaySend) CloseSend() error { s.closed = true; return nil }
+func (s *relaySend) CloseSend() error { s.closed = true; return s.r.closeErr() }
 func (s *relaySend) CloseAndRecv() (*hashmailrpc.CipherBoxDesc, error) {
 	s.closed = true
-	return &hashmailrpc.CipherBoxDesc{}, nil
+	return &hashmailrpc.CipherBoxDesc{}, s.r.closeErr()
 }
 func (s *relaySend) Send(b *hashmailrpc.CipherBox) error {
 	if s.ctx.Err() != nil {
@@ -136,7 +152,7 @@ type relayRecv struct {
 
 func (s *relayRecv) CloseSend() error {
 	s.once.Do(func() { close(s.closed) })
-	return nil
+	return s.r.closeErr()
 }
 func (s *relayRecv) Recv() (*hashmailrpc.CipherBox, error) {
 	r := s.r
